@@ -1,0 +1,71 @@
+// +build verif
+
+package rpc
+
+// VerifConnState is a read-only view of a Conn's tables (verification
+// hook; only built with the "verif" tag).
+type VerifConnState struct {
+	// Locked is false if Conn.mu could not be acquired without blocking;
+	// in that case all other fields are zero.
+	Locked bool
+
+	Closed         bool // Close() was called
+	ShutdownDone   bool // Done() channel is closed
+	SenderLockHeld bool // sendCond != nil
+
+	Questions int // non-nil entries in the question table
+	Answers   int // non-nil entries in the answer table
+	Embargoes int // non-nil entries in the embargo table
+
+	// ExportRefs maps export ID to the number of references the peer holds.
+	ExportRefs map[uint32]uint32
+	// ImportRefs maps import ID to the number of references received.
+	ImportRefs map[uint32]int
+}
+
+// VerifSnapshot returns a view of the connection state.  It uses TryLock
+// so that a leaked mutex is reported (Locked == false) rather than waited
+// on.
+func (c *Conn) VerifSnapshot() VerifConnState {
+	var st VerifConnState
+	select {
+	case <-c.shut:
+		st.ShutdownDone = true
+	default:
+	}
+	if !c.mu.TryLock() {
+		return st
+	}
+	defer c.mu.Unlock()
+	st.Locked = true
+	st.Closed = c.closed
+	st.SenderLockHeld = c.sendCond != nil
+	for _, q := range c.questions {
+		if q != nil {
+			st.Questions++
+		}
+	}
+	for _, a := range c.answers {
+		if a != nil {
+			st.Answers++
+		}
+	}
+	for _, e := range c.embargoes {
+		if e != nil {
+			st.Embargoes++
+		}
+	}
+	st.ExportRefs = make(map[uint32]uint32)
+	for id, e := range c.exports {
+		if e != nil {
+			st.ExportRefs[uint32(id)] = e.wireRefs
+		}
+	}
+	st.ImportRefs = make(map[uint32]int)
+	for id, e := range c.imports {
+		if e != nil {
+			st.ImportRefs[uint32(id)] = e.wireRefs
+		}
+	}
+	return st
+}
